@@ -179,6 +179,61 @@ def run(ck: Check) -> int:
                 sr.samples.append({'pattern': p, 'flags': hex(fl)})
         sr.note = 'same sandwich in fnmatch mode (single segment) on every name <= 3 over "a.b" that begins with a dot'
 
+
+    def s_win(sr):
+        # THE SAME SANDWICH UNDER WINDOWS RULES (session 5; the content of C02win.C02_read_glob_win / C03win.C03_upper_path_win on the real
+        # code): for a pattern without a backslash and without a drive-like beginning, FORCEWIN on a subject = the documented language
+        # (with case folding) of the subject with every `\\` read as `/` — so the Must / May bits the Lean specification gives for the
+        # pattern under IGNORECASE on the path n bound the real FORCEWIN answer on n with its separators rewritten (all of them, or only
+        # the first).  Deviations are the recorded Unix ones (same attribution); nothing new is excused.
+        import re as _re
+        deep = ck.deep()
+        ps = [p for p in (pats if (deep or not quick) else pats[:3000]) if '\\' not in p and not _re.match(r'(?s).:|//', p)]
+        cases = [(p, gen.random_flags(R, [G.G, G.G, G.D, G.E, G.E], 0.4, G.U) | G.I) for p in ps]
+        may = P.pspec(drv, G, cases, paths, 1) if drv else []
+        must = P.pspec(drv, G, cases, paths, 2) if drv else []
+
+        def swaps(n):
+            out = [n.replace('/', '\\')]
+            if n.count('/') > 1:
+                i = n.index('/')
+                out.append(n[:i] + '\\' + n[i + 1:])
+            return out
+        for (p, fl), o, o2 in zip(cases, may, must):
+            f = o.split(' ')
+            if f[0] != 'ok':
+                sr.histogram[f[0]] = sr.histogram.get(f[0], 0) + 1
+                continue
+            info = P.Info(f)
+            mustbits = o2.split(' ')[1]
+            sr.distinct += 1
+            wfl = (fl & ~G.U & ~G.I) | G.W
+            try:
+                with common.time_limit(5):
+                    m = G.compile(p, flags=wfl)
+                    rows = [(n, w, bool(m.match(w))) for n in paths if '\n' not in n for w in swaps(n)]
+            except common.CallTimeout:
+                sr.histogram['timeout'] = sr.histogram.get('timeout', 0) + 1
+                continue
+            bits = {n: (ma, mu) for n, ma, mu in zip(paths, info.bits, mustbits)}
+            for n, w, g in rows:
+                ma, mu = bits[n]
+                sr.evaluations += 1
+                if g and ma == '0':
+                    kid = attribute(info, fl, n, False)
+                    ck.report(Failing(f'FORCEWIN: globmatch accepts {w!r} for {p!r} although the documented language (case folded) refuses {n!r}',
+                                      {'api': 'glob.globmatch', 'pattern': p, 'path': w, 'flags': wfl}, False, True), kid)
+                    sr.histogram[kid or 'unattributed-accept'] = sr.histogram.get(kid or 'unattributed-accept', 0) + 1
+                if (not g) and mu == '1':
+                    kid = 'KF-D1p' if not info.start_safe else None
+                    ck.report(Failing(f'FORCEWIN: globmatch rejects {w!r} for {p!r} although the documented language (case folded) grants {n!r}',
+                                      {'api': 'glob.globmatch', 'pattern': p, 'path': w, 'flags': wfl}, True, False), kid)
+                    sr.histogram[kid or 'unattributed-reject'] = sr.histogram.get(kid or 'unattributed-reject', 0) + 1
+            if len(sr.samples) < 2:
+                sr.samples.append({'pattern': p, 'flags': hex(wfl), 'accepted': [w for _, w, g in rows if g][:4]})
+        sr.note = ('Windows rules: Must ⊆ globmatch(FORCEWIN) ⊆ May of the Lean specification under IGNORECASE, on every path with its separators '
+                   'rewritten to backslashes (all / the first only); patterns without backslash and drive-like beginning (C02win / C03win on the real code)')
+
     # ---- "no pattern, however composed": EVERY dot-free string as a pattern (malformed ones
     # included — unclosed groups, stray `)` `|` `]`), hidden names must be rejected (added after
     # seeded change C03a: a failed extended-group parse did not restore the start state)
@@ -455,6 +510,7 @@ def run(ck: Check) -> int:
     # the sandwich searches last: they escalate to thorough depth when a tie is broken and nothing was found yet
     ck.search('hidden-sandwich-glob', s_search)
     ck.search('hidden-sandwich-fnmatch', s_fn)
+    ck.search('windows-rules-sandwich', s_win)
     if drv:
         drv.close()
     return ck.finish()
